@@ -37,13 +37,26 @@ type c13Key struct {
 	Value   int64  `json:"value"`
 }
 type c13In struct {
-	Kind  string   `json:"kind"` // ax | seq | sort | hist
+	Kind  string   `json:"kind"` // ax | seq | sort | hist | top
 	Mode  string   `json:"mode"` // raw --sort argument (hex, may be any bytes)
 	Keys  []c13Key `json:"keys"`
 	Pairs [][2]int `json:"pairs,omitempty"`
 	Perms [][]int  `json:"perms,omitempty"`
 	Via   string   `json:"via,omitempty"` // Sort | SortBy | counter | subkey | table-rows | table-cols | groups
 	Hist  []c13Ev  `json:"history,omitempty"` // kind hist: samples interleaved with reads (rendered frames)
+	Big   *c13Big  `json:"big,omitempty"`     // kind top
+}
+// kind top: a large key set (names and values computed from a counter, as coq/Model/Sort.v
+// big_items does) handed to an accessor with a row limit, from several arrival orders
+type c13Big struct {
+	Style    int    `json:"style"`  // 0: "k<i>", 1: the number 37*i mod 10007
+	N        int    `json:"groups"` // number of distinct keys
+	A        int64  `json:"a"`      // value of key i: (i*a+b) mod m
+	B        int64  `json:"b"`
+	M        int64  `json:"m"`
+	Limit    int    `json:"limit"`
+	Reps     int    `json:"arrival_orders"`
+	PermSeed uint64 `json:"perm_seed"`
 }
 type c13Ev struct {
 	Key  int   `json:"key"`
@@ -75,18 +88,26 @@ func safeParseFormat(s string) (layout string, err error, panicked bool) {
 	return
 }
 
-func coqFloat(s string) (string, bool, float64) { // term, parsed ok, value
+// ParseFloat oracle: class, and for finite values mantissa and exponent (value = mant * 2^exp)
+type floatOracle struct {
+	term      string // fx | fnan | fpinf | fninf | "" (finite)
+	ok        bool
+	v         float64
+	mant, exp int64
+}
+
+func parseFloatOracle(s string) floatOracle {
 	v, err := strconv.ParseFloat(s, 64)
 	if err != nil {
-		return "fx", false, 0
+		return floatOracle{term: "fx"}
 	}
 	switch {
 	case math.IsNaN(v):
-		return "fnan", true, v
+		return floatOracle{term: "fnan", ok: true, v: v}
 	case math.IsInf(v, 1):
-		return "fpinf", true, v
+		return floatOracle{term: "fpinf", ok: true, v: v}
 	case math.IsInf(v, -1):
-		return "fninf", true, v
+		return floatOracle{term: "fninf", ok: true, v: v}
 	}
 	bits := math.Float64bits(v)
 	mant := int64(bits & (1<<52 - 1))
@@ -98,10 +119,17 @@ func coqFloat(s string) (string, bool, float64) { // term, parsed ok, value
 		mant |= 1 << 52
 		e = exp - 1075
 	}
+	for mant != 0 && mant&1 == 0 { // odd mantissa: keeps the common scale of a case as coarse as possible
+		mant >>= 1
+		e++
+	}
+	if mant == 0 {
+		e = 0
+	}
 	if bits>>63 != 0 {
 		mant = -mant
 	}
-	return fmt.Sprintf("(ff %s %s)", Z(mant), Z(e)), true, v
+	return floatOracle{ok: true, v: v, mant: mant, exp: e}
 }
 
 func instant(t time.Time) *big.Int {
@@ -151,11 +179,13 @@ func ctxSetPos(name string) (int, int) {
 func c13Oracles(keys []c13Key) (terms []string, infos []keyInfo, layouts []string, instants [][]*big.Int, bad bool) {
 	infos = make([]keyInfo, len(keys))
 	fterm := make([]string, len(keys))
+	fos := make([]floatOracle, len(keys))
 	lidx := map[string]int{}
 	for i, k := range keys {
 		n := k.name()
-		t, ok, v := coqFloat(n)
-		fterm[i] = t
+		fo := parseFloatOracle(n)
+		fos[i] = fo
+		ok, v := fo.ok, fo.v
 		infos[i].fOK, infos[i].fv = ok, v
 		infos[i].isNaN = ok && math.IsNaN(v)
 		infos[i].isNum = ok && !math.IsNaN(v)
@@ -172,6 +202,25 @@ func c13Oracles(keys []c13Key) (terms []string, infos []keyInfo, layouts []strin
 			}
 		}
 		infos[i].set, infos[i].pos = ctxSetPos(n)
+	}
+	// finite values as integer multiples of the case's common scale 2^minExp
+	minExp := int64(0)
+	first := true
+	for _, fo := range fos {
+		if fo.term == "" && fo.mant != 0 && (first || fo.exp < minExp) {
+			minExp, first = fo.exp, false
+		}
+	}
+	for i, fo := range fos {
+		if fo.term != "" {
+			fterm[i] = fo.term
+			continue
+		}
+		m := big.NewInt(fo.mant)
+		if fo.mant != 0 {
+			m.Lsh(m, uint(fo.exp-minExp))
+		}
+		fterm[i] = fmt.Sprintf("(ff %s 0)", bigZ(m))
 	}
 	instants = make([][]*big.Int, len(keys))
 	for i, k := range keys {
@@ -475,7 +524,136 @@ func classOf(x keyInfo, name string) string {
 	return "text"
 }
 
+func bigName(style, i int) string {
+	if style == 0 {
+		return "k" + strconv.Itoa(i)
+	}
+	return strconv.Itoa(i * 37 % 10007)
+}
+
+func c13TopRun(in c13In) (out c13Out) {
+	defer func() {
+		if e := recover(); e != nil {
+			out = c13Out{Panic: fmt.Sprint(e)}
+		}
+	}()
+	mode := modeStr(in)
+	if _, err := helpers.BuildSorter(mode); err != nil {
+		return c13Out{Err: true}
+	}
+	b := in.Big
+	names := make([]string, b.N)
+	vals := make([]int64, b.N)
+	index := make(map[string]int, b.N)
+	for i := range names {
+		names[i] = bigName(b.Style, i)
+		vals[i] = (int64(i)*b.A + b.B) % b.M
+		index[names[i]] = i
+	}
+	pr := NewRng(b.PermSeed)
+	out.Outs = [][]int{}
+	for rep := 0; rep < b.Reps; rep++ {
+		perm := randPerm(pr, b.N)
+		sorter, _ := helpers.BuildSorter(mode)
+		res := []int{}
+		switch in.Via {
+		case "subkey":
+			c := aggregation.NewSubKeyCounter()
+			for _, x := range perm {
+				c.SampleValue(names[x], "s", vals[x])
+			}
+			for _, it := range c.ItemsSorted(sorter) {
+				res = append(res, index[it.Name])
+			}
+		case "table-rows":
+			t := aggregation.NewTable(" ")
+			for _, x := range perm {
+				t.SampleItem("c", names[x], vals[x])
+			}
+			for _, r := range t.OrderedRows(sorter) {
+				res = append(res, index[r.Name()])
+			}
+		case "table-cols":
+			t := aggregation.NewTable(" ")
+			for _, x := range perm {
+				t.SampleItem(names[x], "r", vals[x])
+			}
+			for _, cname := range t.OrderedColumns(sorter) {
+				res = append(res, index[cname])
+			}
+		default: // MatchCounter.ItemsSortedBy(limit, sorter): the rows of rare histo -n limit
+			c := aggregation.NewCounter()
+			for _, x := range perm {
+				c.SampleValue(names[x], vals[x])
+			}
+			for _, it := range c.ItemsSortedBy(b.Limit, sorter) {
+				res = append(res, index[it.Name])
+			}
+		}
+		out.Outs = append(out.Outs, res)
+	}
+	return
+}
+
+func c13TopCase(in c13In) Case {
+	out := c13TopRun(in)
+	b := in.Big
+	mode := modeStr(in)
+	cin := fmt.Sprintf("iTop %s %d %d %s %s %s %d %d", HS(mode), b.Style, b.N, Z(b.A), Z(b.B), Z(b.M), b.Limit, b.Reps)
+	var cout string
+	switch {
+	case out.Panic != "":
+		cout = "oPanic"
+	case out.Err:
+		cout = "oErr"
+	default:
+		rows := make([]string, len(out.Outs))
+		for i, r := range out.Outs {
+			rows[i] = coqInts(r)
+		}
+		cout = "oSort " + CoqList(rows)
+	}
+	lname := strings.ToLower(mode)
+	if i := strings.Index(lname, ":"); i >= 0 {
+		lname = lname[:i]
+	}
+	if lname == "" {
+		lname = "text"
+	}
+	if lname == "context" {
+		lname = "contextual"
+	}
+	tags := []string{"kind=top", "via=" + in.Via, "mode=" + lname, fmt.Sprintf("groups=%d..", b.N/1000*1000)}
+	switch {
+	case b.Limit >= b.N:
+		tags = append(tags, "limit=all")
+	case b.Limit >= b.N/4:
+		tags = append(tags, "limit>=groups/4")
+	case b.Limit == 1:
+		tags = append(tags, "limit=1")
+	default:
+		tags = append(tags, "limit<groups/4")
+	}
+	if strings.Contains(mode, ":") {
+		tags = append(tags, "with-modifier")
+	}
+	// the impl observable in the description is abbreviated (the case file has all of it)
+	short := c13Out{Err: out.Err, Panic: out.Panic}
+	for _, o := range out.Outs {
+		if len(o) > 12 {
+			o = o[:12]
+		}
+		short.Outs = append(short.Outs, o)
+	}
+	kb, _ := json.Marshal(in)
+	return Case{Coq: "(" + cin + ", " + cout + ")", Desc: map[string]any{"input": in, "impl_first_rows": short}, Key: string(kb),
+		Nontrivial: true, Tags: tags}
+}
+
 func c13Case(in c13In) Case {
+	if in.Kind == "top" {
+		return c13TopCase(in)
+	}
 	out := c13Run(in)
 	terms, infos, layouts, instants, _ := c13Oracles(in.Keys)
 	names := make([]string, len(in.Keys))
@@ -1103,6 +1281,12 @@ func c13Gen(r *Rng, n int, tier string) []Case {
 		}
 		cases = append(cases, cs)
 	}
+	// large key sets, spread over the run (so that they land in different shards)
+	big := genBigCases(r, tier)
+	for i, bcase := range big {
+		at := (i + 1) * len(cases) / (len(big) + 1)
+		cases = append(cases[:at], append([]Case{bcase}, cases[at:]...)...)
+	}
 	return cases
 }
 
@@ -1146,6 +1330,56 @@ func genHistory(r *Rng, k int, distinct bool) []c13Ev {
 			return h
 		}
 	}
+}
+
+// large key sets (2,000-6,000 keys, many equal values) with a row limit: every limit class on
+// MatchCounter.ItemsSortedBy plus the accessors without a limit at full length
+func genBigCases(r *Rng, tier string) []Case {
+	var cases []Case
+	type bc struct {
+		via   string
+		limit int // 0: all; -1: groups/4-1; -2: groups/4; otherwise the number
+	}
+	plan := []bc{{"counter", 1}, {"counter", 2}, {"counter", 5}, {"counter", 50}, {"counter", -1}, {"counter", -2}, {"counter", 0},
+		{"subkey", 0}, {"table-rows", 0}}
+	if tier == "thorough" {
+		plan = append(plan, plan...)
+		plan = append(plan, bc{"table-cols", 0}, bc{"counter", 5}, bc{"counter", 2})
+	}
+	for _, p := range plan {
+		b := &c13Big{Style: r.Intn(3) / 2, N: r.Range(2050, 6000), A: int64(r.Range(1, 9999)), B: int64(r.Intn(50)),
+			M: int64(Pick(r, []int{3, 7, 17, 50, 1000, 100003})), Reps: 3, PermSeed: r.U64()}
+		switch p.limit {
+		case 0:
+			b.Limit = b.N
+			b.Reps = 2
+			if b.N > 3500 {
+				b.N = r.Range(2050, 3500) // the whole sorted view is written into the case file
+				b.Limit = b.N
+			}
+		case -1:
+			b.Limit = b.N/4 - 1
+		case -2:
+			b.Limit = b.N / 4
+		default:
+			b.Limit = p.limit
+		}
+		name := Pick(r, []string{"value", "value", "text", "numeric", "contextual", "date", ""})
+		if name == "date" && b.Style != 0 {
+			name = "numeric" // digit strings can be dates; the model's large keys carry no date oracle
+		}
+		if name == "date" {
+			for i := 0; i < b.N; i++ {
+				if _, err, p := safeParseFormat(bigName(0, i)); err == nil || p {
+					name = "text"
+					break
+				}
+			}
+		}
+		spec := genSpecFor(r, name)
+		cases = append(cases, c13TopCase(c13In{Kind: "top", Mode: hex.EncodeToString([]byte(spec)), Via: p.via, Big: b}))
+	}
+	return cases
 }
 
 func hasKF(tags []string) bool {
@@ -1219,6 +1453,7 @@ func main() {
 			"key recipes: numbers in several spellings (1, 1.0, 01, 1e0, -0, hex float, subnormal, > 2^53, out of range), nan/inf, text, number-like text (5x, 1,5), weekday/month names and abbreviations in random case, near-misses (sund, FR\\u0130), dates in 15 layouts incl. years 0001..9999 (instants outside the int64-nanosecond range), mixtures; values: distinct / many ties / all equal / int64 extremes. " +
 			"kinds: ax = every ordered pair on a fresh BuildSorter instance (decision matrix, compared off the diagonal; axioms on all triples in Coq); seq = 3..40 comparisons of distinct keys incl. swapped and repeated pairs on one instance; " +
 			"hist = a collector (MatchCounter.ItemsSortedBy, SubKeyCounter.ItemsSorted, TableAggregator.OrderedRows/OrderedColumns, AccumulatingGroup.Groups with SetSort({sum}) as in rare reduce) fed 5..30 samples interleaved with reads of the sorted view (rendered frames) on one sorter instance; the final read is compared with the model's function of the final totals alone; " +
+			"top = 9 cases per run with 2,050..6,000 keys built from a counter (text k<i> or numbers 37*i mod 10007) and values (i*a+b) mod m (many ties), 2-3 arrival orders each: MatchCounter.ItemsSortedBy with limits 1, 2, 5, 50, groups/4-1, groups/4, groups, and SubKeyCounter.ItemsSorted / TableAggregator.OrderedRows at full length, any sort mode and modifier; the model answers firstn limit of its full (merge) sort and the boolean form checks the rows in a linear pass; " +
 			"sort = sorting.Sort / SortBy / MatchCounter.ItemsSortedBy / TableAggregator.OrderedRows / OrderedColumns on every arrangement (<= 5 keys, sometimes 6) or 50 random arrangements (6..12 keys), fresh sorter each. " +
 			"distinct = distinct (kind, specification, keys with values, pairs/arrangements, path); non-trivial = at least 3 keys. --sort date cases whose key set is neither inside one layout nor without any layout lie in the domain of the recorded finding C13-stateful-date: they carry its kf: tag (decided from specification and keys alone) and go through Sort/SortBy only (the collectors' map order would make the run irreproducible there). Distribution tags numbers+text, equal-values, calendar-mixture, calendar-tie, equal-instants mark the key sets the repaired comparators are about.",
 		Gen: c13Gen,
